@@ -48,7 +48,8 @@ EXPLANATION = (
     "(real check_is_fitted); (3) HISTORY - every fit is re-verified starting from POISONED fitted attributes of a previous fit: all of "
     "them must be replaced and no clause may depend on them (VectorSpline2D's documented reuse of force_coords excepted); "
     "(4) REPEATABILITY - the only nondeterminism in the model is RandomState, so repeatability is the self-composition lemma for "
-    "scatter_points (the splitters' reproducibility is bounded, C11); (5) CLONE - for 13 estimator classes the real constructor and the "
+    "scatter_points (the splitters' reproducibility - a fresh splitter with the same seed, a second split() of the same object, a splitter "
+    "reused on the same points in another row order - is a BOUNDED run-time contract, run here and under C11); (5) CLONE - for 13 estimator classes the real constructor and the "
     "real BaseEstimator.get_params run on symbolic parameters: every argument is stored as given, type(e)(**e.get_params()) has "
     "identical attributes, no fitted state. The functional postconditions are NOT re-proved here (they are C01-C19)."
 )
